@@ -7,6 +7,7 @@ import math
 from fractions import Fraction
 
 from harness.common import Run, coq_Q, coq_bool, coq_list, coq_string, frac
+from harness.translate import c14_readers
 
 META = dict(
     technique="Coq theorems (structural induction over the row list, Permutation) on a line-by-line model of the dataframe readers, "
@@ -35,6 +36,12 @@ OBLIGATIONS = [
 
 NAN = float("nan")
 INF = float("inf")
+
+
+def translate(run: Run) -> bool:
+    """T1: regenerate coq/gen/GenC14.v (the ordered decision table of the four dataframe readers) from $VERIF_REPO/src/leaspy."""
+    return c14_readers.translate(run)
+
 
 # ----------------------------------------------------------------------------- table specs
 # A spec is a JSON-serialisable description of the caller's table; floats are written with float.hex()
@@ -977,6 +984,7 @@ def check(run: Run):
 
 
 def main(run: Run):
+    translate(run)
     ok_p = run.prove("C14", OBLIGATIONS)
     run.assumptions += [
         "pandas semantics as modelled: groupby(level='ID', sort=False) yields groups in order of first appearance with rows in original order; "
